@@ -97,149 +97,122 @@ def excel_fs(chk, P, rule):
 
 
 def parser_key(chk, P, rule):
-    I = W.make_interp(P)
-    captured = {}
-
-    def capture(i, fv, a, k, n):
-        captured["func"] = a[2]
-        return NONE
-    I.hooks["atsim.potentials.config._config_parser:ConfigParser._parse_label_type_params_line"] = capture
+    """[EAM-Density] keys through ConfigParser(text).eam_density_fs"""
+    from .c14 import parse
     ci = P.cls("atsim.potentials.config._config_parser", "ConfigParser")
-    inst = InstV(ci)
-    W.run_method(I, inst, "_parse_eam_fs_density_line", [Const("A->B"), Const("as.zero")])
-    f = captured.get("func")
-    site = ci.site_of("_parse_eam_fs_density_line")
-    if f is None:
-        raise AnalysisError("FS density line parser no longer passes a key function")
+    site = ci.lookup("eam_density_fs").site()
     for key, (fr, to) in (("Al->Fe", ("Al", "Fe")), (" Fe -> Al ", ("Fe", "Al")), ("A->B", ("A", "B"))):
-        r = I.call(f, [Const(key)], {})
+        out = parse(P, "[EAM-Density]\n%s : as.zero\n" % key)
+        r = out[1]
+        if out[0] == "ok":
+            I, cp = out[3], out[4]
+            try:
+                rows = I.as_iterable(I.getattr(cp, "eam_density_fs"))
+                r = I.getattr(rows.items[0], "species") if isinstance(rows, ListV) and len(rows.items) == 1 else rows
+            except RaiseSignal as e:
+                r = e.exc
         ok = isinstance(r, NTV) and r.cls.fields == ["from_species", "to_species"] \
             and isinstance(r.values[0], Const) and r.values[0].v == fr and r.values[1].v == to
         chk.ob(rule, "key %r parses to (from_species=%r, to_species=%r)" % (key, fr, to), ok, site=site, found=r,
                expect="EAMFSDensitySpeciesTuple(%r, %r)" % (fr, to), key="%s|key|%s" % (rule, key.strip().replace(" ", "")))
 
 
-def _fs_rows(P, I, pairs):
-    mod = P.module("atsim.potentials.config._common")
-    sp_t = I.module_global(mod, "EAMFSDensitySpeciesTuple")
-    row_t = I.module_global(mod, "EAMDensityTuple")
-    rows = []
-    for a, b in pairs:
-        sp = I.call(sp_t, [Const(a), Const(b)], {})
-        rows.append(I.call(row_t, [sp, W.param("defn_%s_%s" % (a, b))], {}))
-    return ListV(rows, "list")
-
-
-class _PFB(object):
-    """stands for Potential_Form_Builder: create_potential_function(defn_X) -> func(defn_X)"""
-    def m_create_potential_function(self, I, args, kwargs):
-        return Opaque(("built", args[0].key()))
+def _zero_at(I, f):
+    if f is None:
+        return None
+    try:
+        v = I.call(f, [W.nsym("r")], {})
+    except RaiseSignal as e:
+        return e.exc
+    return v
 
 
 def builder(chk, P, rule):
-    from ..symeval_ops import PyObjV
-    I = W.make_interp(P)
-    ci = P.cls("atsim.potentials.config._eam_potential_builder", "EAM_Potential_Builder_FS")
-    b = InstV(ci)
-    b.attrs["_reference_data"] = W.param("rd")
+    """EAM_Potential_Builder_FS(cp, forms, modifiers, reference_data=rd).eam_potentials on an asymmetric model"""
+    from .. import eamrules as E
+    ci = P.cls(E.BUILDER_MOD, "EAM_Potential_Builder_FS")
+    site = ci.lookup("eam_potentials").site()
     pairs = [("Fe", "Al"), ("Al", "Fe"), ("Al", "Al")]
-    rows = _fs_rows(P, I, pairs)
-    d = W.run_method(I, b, "_density_to_potential_form_dict", [rows, PyObjV(_PFB())])
-    site = ci.site_of("_density_to_potential_form_dict")
-    if not isinstance(d, DictV):
-        raise AnalysisError("FS density dictionary is not a dict: %r" % (d,))
+    dens = [((a, b), W.param("defn_%s_%s" % (a, b))) for a, b in pairs]
+    embed = [("Fe", W.param("F_Fe")), ("Al", W.param("F_Al"))]
+    out = E.build(P, W.make_interp, True, embed, dens)
+    if out[1] != "ok":
+        chk.ob(rule, "the asymmetric Finnis-Sinclair model builds", False, site=site, found=out[2], expect="two EAMPotential objects",
+               key=rule + "|builds")
+        return
+    I, pots = out[0], out[2]
+
+    def slot(a, b):
+        p = pots.get(a)
+        d = I.getattr(p, "electronDensityFunction") if p is not None else None
+        if isinstance(d, DictV) and Const(b).key() in d.items:
+            return d.items[Const(b).key()][1]
+        return None
     for a, bb in pairs:
-        inner = d.items.get(Const(a).key())
-        got = inner[1].items.get(Const(bb).key())[1] if inner and isinstance(inner[1], DictV) and Const(bb).key() in inner[1].items else None
-        want = Opaque(("built", W.param("defn_%s_%s" % (a, bb)).key()))
-        chk.ob(rule, "entry '%s->%s' is stored at density[%s][%s]" % (a, bb, a, bb), got is not None and got.key() == want.key(),
-               site=site, found=got, expect=want, key="%s|store|%s->%s" % (rule, a, bb))
-    # transposed slot must stay empty
-    inner = d.items.get(Const("Fe").key())
-    chk.ob(rule, "nothing is stored at the transposed slot density[Fe][Fe]",
-           not (inner and Const("Fe").key() in inner[1].items), site=site, found=inner, expect="no Fe->Fe entry",
-           key=rule + "|store|no-transpose")
-    # duplicates rejected
-    I2 = W.make_interp(P)
-    b2 = InstV(ci)
-    rows2 = _fs_rows(P, I2, [("Fe", "Al"), ("Fe", "Al")])
-    cfg = P.cls("atsim.potentials.config._common", "ConfigurationException")
-    try:
-        W.run_method(I2, b2, "_density_to_potential_form_dict", [rows2, PyObjV(_PFB())])
-        out = "accepted"
-    except RaiseSignal as e:
-        out = e.exc
-    ok = isinstance(out, ExcV) and isinstance(out.cls, ClassV) and out.cls.ci.is_subclass_of(cfg)
-    chk.ob(rule, "a repeated A->B entry is a configuration error", ok, site=site, found=out, expect="ConfigurationException",
-           key=rule + "|duplicate")
-    # EAMPotential(S) receives density[S]
-    embed = DictV()
-    for s in ("Fe", "Al"):
-        embed.items[Const(s).key()] = (Const(s), W.param("F_" + s))
-    for s in ("Fe", "Al"):
-        pot = W.run_method(I, b, "_create_eam_potential", [Const(s), embed, d])
-        got = pot.attrs.get("electronDensityFunction") if isinstance(pot, InstV) else None
-        want = d.items[Const(s).key()][1]
-        chk.ob(rule, "EAMPotential(%s) receives density[%s]" % (s, s), got is want, site=ci.site_of("_create_eam_potential"),
-               found=got, expect=want, key="%s|owner|%s" % (rule, s))
-        sp = pot.attrs.get("species") if isinstance(pot, InstV) else None
-        chk.ob(rule, "EAMPotential(%s).species is %s" % (s, s), isinstance(sp, Const) and sp.v == s,
-               site=ci.site_of("_create_eam_potential"), found=sp, expect=s, key="%s|species|%s" % (rule, s))
+        got = slot(a, bb)
+        want = E.built(W.param("defn_%s_%s" % (a, bb)))
+        chk.ob(rule, "entry '%s->%s' is stored at EAMPotential(%s).electronDensityFunction[%s]" % (a, bb, a, bb),
+               got is not None and got.key() == want.key(), site=site, found=got, expect=want, key="%s|store|%s->%s" % (rule, a, bb))
+    z = _zero_at(I, slot("Fe", "Fe"))
+    chk.ob(rule, "the undeclared slot Fe->Fe holds the zero function, not a transposed entry", isinstance(z, Num) and z.const() == 0,
+           site=site, found=z if z is not None else "no entry", expect="0.0 at every r", key=rule + "|store|no-transpose")
+    o2 = E.build(P, W.make_interp, True, embed, [(("Fe", "Al"), W.param("d1")), (("Fe", "Al"), W.param("d2"))])
+    chk.ob(rule, "a repeated A->B entry is a configuration error", o2[1] == "raise" and E.is_config_error(P, o2[2]), site=site,
+           found=o2[2] if o2[1] == "raise" else "accepted", expect="ConfigurationException", key=rule + "|duplicate")
+    for s_ in ("Fe", "Al"):
+        p = pots.get(s_)
+        d = I.getattr(p, "electronDensityFunction") if p is not None else None
+        keys = sorted(k.v for k, _ in d.items.values()) if isinstance(d, DictV) else None
+        chk.ob(rule, "EAMPotential(%s) receives the dictionary of densities at a %s site (one entry per species)" % (s_, s_),
+               keys == ["Al", "Fe"], site=site, found=keys if keys is not None else d, expect=["Al", "Fe"], key="%s|owner|%s" % (rule, s_))
+        ef = I.getattr(p, "embeddingFunction") if p is not None else None
+        chk.ob(rule, "EAMPotential(%s) receives the embedding function declared for %s" % (s_, s_),
+               ef is not None and ef.key() == E.built(W.param("F_" + s_)).key(), site=site, found=ef, expect="built(F_%s)" % s_,
+               key="%s|species|%s" % (rule, s_))
 
 
 def zero_fill(chk, P, rule):
-    I = W.make_interp(P)
-    ci = P.cls("atsim.potentials.config._eam_potential_builder", "EAM_Potential_Builder_FS")
-    b = InstV(ci)
-    rows = _fs_rows(P, I, [("Fe", "Al")])
-    I.hooks["atsim.potentials.config._eam_potential_builder:EAM_Potential_Builder_FS._extract_density"] = lambda i, fv, a, k, n: rows
-    embed = DictV()
-    embed.items[Const("Fe").key()] = (Const("Fe"), W.param("F_Fe"))
-    dens = DictV()
-    inner = DictV()
-    inner.items[Const("Al").key()] = (Const("Al"), W.param("declared_Fe_Al"))
-    dens.items[Const("Fe").key()] = (Const("Fe"), inner)
-    W.run_method(I, b, "_add_null_density_functions", [W.param("cp"), embed, dens])
-    site = ci.site_of("_add_null_density_functions")
-    r = W.nsym("r")
+    from .. import eamrules as E
+    ci = P.cls(E.BUILDER_MOD, "EAM_Potential_Builder_FS")
+    site = ci.lookup("eam_potentials").site()
+    out = E.build(P, W.make_interp, True, [("Fe", W.param("F_Fe"))], [(("Fe", "Al"), W.param("declared_Fe_Al"))])
+    if out[1] != "ok":
+        chk.ob(rule, "an under-specified Finnis-Sinclair model builds (undeclared functions are zero-filled)", False, site=site, found=out[2],
+               expect="EAMPotential objects for Fe and Al", key=rule + "|builds")
+        return
+    I, pots = out[0], out[2]
     for a in ("Fe", "Al"):
+        p = pots.get(a)
+        d = I.getattr(p, "electronDensityFunction") if p is not None else None
         for bb in ("Fe", "Al"):
-            ent = dens.items.get(Const(a).key())
-            got = ent[1].items.get(Const(bb).key())[1] if ent and isinstance(ent[1], DictV) and Const(bb).key() in ent[1].items else None
+            got = d.items[Const(bb).key()][1] if isinstance(d, DictV) and Const(bb).key() in d.items else None
             if (a, bb) == ("Fe", "Al"):
-                ok = got is not None and got.key() == W.param("declared_Fe_Al").key()
-                chk.ob(rule, "declared entry Fe->Al is not overwritten", ok, site=site, found=got, expect="declared_Fe_Al",
+                ok = got is not None and got.key() == E.built(W.param("declared_Fe_Al")).key()
+                chk.ob(rule, "declared entry Fe->Al is not overwritten", ok, site=site, found=got, expect="built(declared_Fe_Al)",
                        key=rule + "|keep|Fe->Al")
             else:
-                ok = False
-                val = None
-                if got is not None:
-                    val = I.call(got, [r], {})
-                    ok = isinstance(val, Num) and val.const() == 0
-                chk.ob(rule, "undeclared %s->%s is filled with the zero function" % (a, bb), ok, site=site, found=val if got is not None else None,
-                       expect="0.0 at every r", key="%s|zero|%s->%s" % (rule, a, bb))
-    # same for the plain EAM builder's density and embedding fill
-    ci0 = P.cls("atsim.potentials.config._eam_potential_builder", "EAM_Potential_Builder")
-    I0 = W.make_interp(P)
-    mod = P.module("atsim.potentials.config._common")
-    row_t = I0.module_global(mod, "EAMDensityTuple")
-    rows0 = ListV([I0.call(row_t, [Const("Al"), W.param("defn_Al")], {}), I0.call(row_t, [Const("Cu"), W.param("defn_Cu")], {})], "list")
-    I0.hooks["atsim.potentials.config._eam_potential_builder:EAM_Potential_Builder._extract_density"] = lambda i, fv, a, k, n: rows0
-    b0 = InstV(ci0)
-    embed0 = DictV()
-    embed0.items[Const("Al").key()] = (Const("Al"), W.param("F_Al"))
-    dens0 = DictV()
-    dens0.items[Const("Al").key()] = (Const("Al"), W.param("rho_Al"))
-    W.run_method(I0, b0, "_add_null_functions", [W.param("cp"), embed0, dens0])
-    for dct, name, declared in ((embed0, "embedding", "F_Al"), (dens0, "density", "rho_Al")):
-        keep = dct.items.get(Const("Al").key())
-        chk.ob(rule, "EAM %s of Al is kept" % name, keep is not None and keep[1].key() == W.param(declared).key(),
-               site=ci0.site_of("_add_null_functions"), found=keep, expect=declared, key="%s|eam-keep|%s" % (rule, name))
-        z = dct.items.get(Const("Cu").key())
-        val = I0.call(z[1], [r], {}) if z is not None else None
-        chk.ob(rule, "EAM %s of the undeclared species Cu is the zero function" % name,
-               isinstance(val, Num) and val.const() == 0, site=ci0.site_of("_add_null_functions"), found=val, expect="0.0",
-               key="%s|eam-zero|%s" % (rule, name))
+                val = _zero_at(I, got)
+                chk.ob(rule, "undeclared %s->%s is filled with the zero function" % (a, bb), isinstance(val, Num) and val.const() == 0,
+                       site=site, found=val if got is not None else "no entry", expect="0.0 at every r", key="%s|zero|%s->%s" % (rule, a, bb))
+    # the plain EAM builder: a species with a density but no embedding function, and one with an embedding function but no density
+    ci0 = P.cls(E.BUILDER_MOD, "EAM_Potential_Builder")
+    site0 = ci0.lookup("eam_potentials").site()
+    for what, embed, dens, missing_attr, kept in (
+            ("embedding", [("Al", W.param("F_Al"))], [("Al", W.param("rho_Al")), ("Cu", W.param("rho_Cu"))], "embeddingFunction", ("Al", "embeddingFunction", "F_Al")),
+            ("density", [("Al", W.param("F_Al")), ("Cu", W.param("F_Cu"))], [("Al", W.param("rho_Al"))], "electronDensityFunction", ("Al", "electronDensityFunction", "rho_Al"))):
+        o = E.build(P, W.make_interp, False, embed, dens)
+        if o[1] != "ok":
+            chk.ob(rule, "an EAM model lacking the %s function of Cu builds" % what, False, site=site0, found=o[2], expect="zero-filled",
+                   key="%s|eam-builds|%s" % (rule, what))
+            continue
+        J, pp = o[0], o[2]
+        k = J.getattr(pp[kept[0]], kept[1]) if kept[0] in pp else None
+        chk.ob(rule, "EAM %s of Al is kept" % what, k is not None and k.key() == E.built(W.param(kept[2])).key(), site=site0, found=k,
+               expect="built(%s)" % kept[2], key="%s|eam-keep|%s" % (rule, what))
+        z = J.getattr(pp["Cu"], missing_attr) if "Cu" in pp else None
+        val = _zero_at(J, z)
+        chk.ob(rule, "EAM %s of the species Cu, which declares none, is the zero function" % what, isinstance(val, Num) and val.const() == 0,
+               site=site0, found=val if z is not None else "no EAMPotential for Cu", expect="0.0", key="%s|eam-zero|%s" % (rule, what))
 
 
 def factories(chk, P, rule):
